@@ -363,6 +363,23 @@ pub fn run(ctx: &mut Ctx) {
                     n_fields += 1;
                 }
             }
+            // random assignments: every field takes one of its test values at the same time
+            for _ in 0..(if quick { 4 } else { 300 }) {
+                let mut vals = base.clone();
+                let mut canonical = true;
+                for (i, f) in fields.iter().enumerate() {
+                    if tail["k"] == "vec" && f["off"] == 3 { continue; }
+                    if kind == "MSO" && fname(f) == "TextStart" { continue; }
+                    let tv = test_values(&kind, f);
+                    if tv.is_empty() { continue; }
+                    let v = ctx.rng.pick(&tv).clone();
+                    if matches!(&v, FV::Num(n) if *n > 1) && cls(f) == "uint" && is_bool_field(&ls, k, f) { canonical = false; }
+                    vals[i] = v;
+                }
+                if kind == "SMALL" { continue; }   // value and sub-type are not independent: see sub_typed
+                let c = image(k, compressed, &vals, &base_elems, &base_text);
+                run_case(ctx, &ls, k, compressed, &c, "random assignment", false, canonical);
+            }
             // tails
             if tail["k"] == "vec" {
                 let maxn = tail["max"].as_u64().unwrap_or(8).min(if compressed { 30 } else { 8 });
